@@ -6,15 +6,24 @@
 (*  WriteMem / WriteWal / Ack   shard.writeRows: memtable, then WAL record *)
 (*                               to partition (writeReq++ mod N), both     *)
 (*                               under the shared snapshotLock; then 204   *)
-(*  FlushSwitch                  tsstoreImpl.writeSnapshot under the       *)
-(*                               exclusive lock: WAL.Switch + table swap   *)
-(*  FlushIndex                   indexBuilder.Flush                        *)
+(*  FlushSwitch(kind)            tsstoreImpl.writeSnapshot under the       *)
+(*                               exclusive lock: WAL.Switch + table swap;  *)
+(*                               kind = "forced" (ForceFlush: close, drop, *)
+(*                               replay, admin) or "auto" (started by the  *)
+(*                               100 ms ticker of shard.Snapshot() when    *)
+(*                               the table is full or write-cold)          *)
+(*  FlushIndex                   indexBuilder.Flush (synchronous flush of  *)
+(*                               the series index's in-memory items)       *)
+(*  IndexBgFlush(S)              the merge-set index's own rawItemsFlusher *)
+(*                               (1 s ticker), independent of everything   *)
 (*  FlushInit / FlushRename      commitSnapshot: *.tssp.init, rename       *)
 (*  FlushRemoveWal(f) / FlushEnd RemoveWalFiles (one file at a time), drop *)
 (*                               the snapshot table                        *)
 (*  Crash                        kill -9 at any instant (also in recovery) *)
 (*  RecOpen / RecReplay          restoreLogs + Replay (consumeRecordSerial)*)
-(*  RecInit / RecRename          ForceFlush of the replayed rows           *)
+(*                               the log record carries the series key:    *)
+(*                               replay re-creates missing index entries   *)
+(*  RecIndex / RecInit / RecRename  ForceFlush of the replayed rows        *)
 (*  RecRemoveWal(f) / RecEnd     wal.Remove, shard opens for writes        *)
 (*                                                                         *)
 (* Dev = {} is the design that satisfies C01. The deviations              *)
@@ -24,7 +33,20 @@
 (*   "wal_remove_one_by_one" old log files are removed one at a time       *)
 (*                          (as implemented) instead of atomically         *)
 (* are what the pinned code does; each violates Durable (known findings    *)
-(* F-C01-1, F-C01-2). The remaining names are mutation seeds.              *)
+(* F-C01-1, F-C01-2). The remaining names are mutation seeds:              *)
+(*   "auto_flush_skips_index"       only forced flushes run FlushIndex     *)
+(*   "index_flush_after_wal_remove" the index is flushed at the end of the *)
+(*                                  flush, after the log files are gone    *)
+(*   "ack_before_wal", "remove_wal_before_rename", "reset_writereq_at_switch"*)
+(* and "drop_files_after_log" is the order of DROP MEASUREMENT as          *)
+(* implemented (open finding F-C01-3).                                     *)
+(*                                                                         *)
+(* Series index. A cell belongs to a series (serOf). The first write of a  *)
+(* series puts its key into the index's in-memory items (idxMem): lost by  *)
+(* a crash. FlushIndex / IndexBgFlush move them to disk (idxDisk). A row   *)
+(* is readable only through the index: Read(k) = 0 when serOf[k] is in     *)
+(* neither. So a log file may only go when the series of all its rows are  *)
+(* in idxDisk (IndexBeforeWalRemove).                                      *)
 (***************************************************************************)
 EXTENDS Integers, Sequences, FiniteSets, TLC, SequencesExt, FiniteSetsExt
 
@@ -36,6 +58,7 @@ CONSTANTS N,          \* number of WAL partitions
           MaxInits,   \* data files written by one flush
           DropKeys,   \* cells of the measurement that DROP MEASUREMENT removes (subset of Keys)
           MaxDrop,    \* drops
+          SeriesOpts, \* set of partitions of Keys: which cells share a series (one is chosen at Init)
           Dev
 
 VARIABLES wal,       \* [1..N -> Seq(file)], file = [id, recs: Seq(write id), open: BOOLEAN]
@@ -47,6 +70,13 @@ VARIABLES wal,       \* [1..N -> Seq(file)], file = [id, recs: Seq(write id), op
           files,     \* committed data files, oldest first: each a Seq(write id)
           inits,     \* *.tssp.init files (invisible to readers and to recovery)
           fpc,       \* flush program counter
+          fkind,     \* how the running flush was started: "none" | "forced" | "auto"
+          serOf,     \* cell -> series (name = one of its cells); fixed at Init
+          idxMem,    \* series whose key is only in the index's in-memory items
+          idxDisk,   \* series whose key is in an index part on disk
+          wat,       \* <<fpc, fkind>> when the write in progress entered the memtable (export only)
+          pendF,     \* export only: kind of a flush that started while a logged write was not yet acknowledged
+                     \* ("none" otherwise); its Flush entry follows that write's entry, whose rows it flushes
           mode,      \* "run" | "down" | "rec"
           rpc,       \* recovery program counter
           keyOf,     \* write id -> key
@@ -58,10 +88,11 @@ VARIABLES wal,       \* [1..N -> Seq(file)], file = [id, recs: Seq(write id), op
           ndrop,
           hist       \* client-visible history (export)
 
+ivars == <<fkind, serOf, idxMem, idxDisk>>
 vars == <<wal, nfile, writeReq, mem, snap, pend, files, inits, fpc, mode, rpc, keyOf, nw, wst, acked,
-          nflush, ncrash, dpc, ndrop, hist>>
+          nflush, ncrash, dpc, ndrop, ivars, wat, pendF, hist>>
 view == <<wal, nfile, writeReq, mem, snap, pend, files, inits, fpc, mode, rpc, keyOf, nw, wst, acked,
-          nflush, ncrash, dpc, ndrop>>
+          nflush, ncrash, dpc, ndrop, ivars>>
 
 Parts == 1..N
 W     == 1..MaxW
@@ -77,8 +108,12 @@ ReadFiles(fs, k) == IF fs = <<>> THEN 0
                     ELSE LET v == LastOn(fs[Len(fs)], k)
                          IN IF v # 0 THEN v ELSE ReadFiles(SubSeq(fs, 1, Len(fs) - 1), k)
 
+\* a query finds rows through the series index only
+Indexed(k) == serOf[k] \in idxMem \cup idxDisk
+
 Read(k) == LET a == LastOn(mem, k) b == LastOn(snap, k)
-           IN IF a # 0 THEN a ELSE IF b # 0 THEN b ELSE ReadFiles(files, k)
+           IN IF ~Indexed(k) THEN 0
+              ELSE IF a # 0 THEN a ELSE IF b # 0 THEN b ELSE ReadFiles(files, k)
 
 \* the latest acknowledged write that has not been dropped since
 LastAcked(k) == LastOn(SelectSeq(acked, LAMBDA w : wst[w] = "acked"), k)
@@ -86,7 +121,11 @@ LastAcked(k) == LastOn(SelectSeq(acked, LAMBDA w : wst[w] = "acked"), k)
 AllFiles == UNION {{wal[p][i].id : i \in 1..Len(wal[p])} : p \in Parts}
 
 -----------------------------------------------------------------------------
+SerMap(P) == [k \in Keys |-> CHOOSE r \in (CHOOSE c \in P : k \in c) : TRUE]
+
 Init ==
+  /\ fkind = "none" /\ idxMem = {} /\ idxDisk = {} /\ wat = <<"idle", "none">> /\ pendF = "none"
+  /\ serOf \in {SerMap(P) : P \in SeriesOpts}
   /\ wal = [p \in Parts |-> <<>>] /\ nfile = 1 /\ writeReq = 0
   /\ mem = <<>> /\ snap = <<>> /\ pend = {} /\ files = <<>> /\ inits = 0
   /\ fpc = "idle" /\ mode = "run" /\ rpc = "none"
@@ -94,9 +133,12 @@ Init ==
   /\ wst = [w \in W |-> "none"] /\ acked = <<>>
   /\ nflush = 0 /\ ncrash = 0 /\ dpc = "none" /\ ndrop = 0 /\ hist = <<>>
 
+DropAsImpl == "drop_files_after_log" \in Dev   \* see DropBegin
+
 Unlogged == {w \in W : wst[w] = "mem"}
 Unacked  == {w \in W : wst[w] \in {"mem", "logged"}}
 
+\* shard.writeRowsToTable: storage.WriteIndex (a new series gets its index entry, in memory) and then the memtable
 WriteMem(k) ==
   /\ mode = "run" /\ nw < MaxW /\ Unacked = {}       \* one sequential client: acknowledgement order is well defined
   /\ dpc = "none"
@@ -104,7 +146,10 @@ WriteMem(k) ==
   /\ keyOf' = [keyOf EXCEPT ![nw + 1] = k]
   /\ mem' = Append(mem, nw + 1)
   /\ wst' = [wst EXCEPT ![nw + 1] = "mem"]
-  /\ UNCHANGED <<wal, nfile, writeReq, snap, pend, files, inits, fpc, mode, rpc, acked, nflush, ncrash, dpc, ndrop, hist>>
+  /\ idxMem' = IF Indexed(k) THEN idxMem ELSE idxMem \cup {serOf[k]}
+  /\ wat' = <<fpc, fkind>>
+  /\ UNCHANGED <<wal, nfile, writeReq, snap, pend, files, inits, fpc, mode, rpc, acked, nflush, ncrash, dpc, ndrop, hist,
+                 fkind, serOf, idxDisk, pendF>>
 
 \* append the record to the partition's open file, creating one if needed
 AppendRec(p, w) ==
@@ -121,31 +166,60 @@ WriteWal(w) ==
        ELSE /\ AppendRec((writeReq % N) + 1, w)
             /\ writeReq' = writeReq + 1
   /\ wst' = [wst EXCEPT ![w] = "logged"]
-  /\ UNCHANGED <<mem, snap, pend, files, inits, fpc, mode, rpc, keyOf, nw, acked, nflush, ncrash, dpc, ndrop, hist>>
+  /\ UNCHANGED <<mem, snap, pend, files, inits, fpc, mode, rpc, keyOf, nw, acked, nflush, ncrash, dpc, ndrop, hist, ivars, wat, pendF>>
+
+\* the exported client history: a Write carries the series of its cell and where the flush in progress (if any)
+\* stood when the write started ("at"); a Flush is exported when it starts, with its kind
+FlushEntry(kind) == [a |-> "Flush", w |-> 0, k |-> "-", s |-> "-", kind |-> kind, at |-> "-"]
 
 Ack(w) ==
   /\ mode = "run" /\ wst[w] = "logged"
   /\ wst' = [wst EXCEPT ![w] = "acked"]
   /\ acked' = Append(acked, w)
-  /\ hist' = Append(hist, [a |-> "Write", w |-> w, k |-> keyOf[w]])
-  /\ UNCHANGED <<wal, nfile, writeReq, mem, snap, pend, files, inits, fpc, mode, rpc, keyOf, nw, nflush, ncrash, dpc, ndrop>>
+  /\ hist' = Append(hist, [a |-> "Write", w |-> w, k |-> keyOf[w], s |-> serOf[keyOf[w]], kind |-> wat[2], at |-> wat[1]])
+              \o (IF pendF = "none" THEN <<>> ELSE <<FlushEntry(pendF)>>)
+  /\ pendF' = "none"
+  /\ UNCHANGED <<wal, nfile, writeReq, mem, snap, pend, files, inits, fpc, mode, rpc, keyOf, nw, nflush, ncrash, dpc, ndrop, ivars, wat>>
 
 CloseAll(ws) == [p \in Parts |-> [i \in 1..Len(ws[p]) |-> [ws[p][i] EXCEPT !.open = FALSE]]]
 
-FlushSwitch ==
+\* Two ways into writeSnapshot. "forced": tsstoreImpl.ForceFlush (sets shard.forceFlush, waits for a running snapshot).
+\* "auto": shard.Snapshot()'s ticker finds shouldSnapshot() true (table not empty and full or write-cold, no snapshot
+\* running, no forced flush pending). DROP MEASUREMENT forces a flush of its own.
+FlushSwitch(kind) ==
   /\ mode = "run" /\ fpc = "idle" /\ mem # <<>> /\ Unlogged = {}
-  /\ (nflush < MaxFlush \/ dpc = "marked")             \* DROP MEASUREMENT forces a flush of its own
-  /\ dpc \in {"none", "marked"}
+  /\ (nflush < MaxFlush \/ dpc # "none")               \* DROP MEASUREMENT forces a flush of its own:
+  /\ dpc \in {"none", IF DropAsImpl THEN "marked" ELSE "removed"}   \* before (as implemented) / after its files go
+  /\ (kind = "auto" => dpc = "none")
   /\ snap' = mem /\ mem' = <<>>
   /\ wal' = CloseAll(wal)
   /\ pend' = AllFiles
   /\ writeReq' = IF "reset_writereq_at_switch" \in Dev THEN 0 ELSE writeReq
-  /\ fpc' = "switched" /\ nflush' = nflush + 1
-  /\ UNCHANGED <<nfile, files, inits, mode, rpc, keyOf, nw, wst, acked, ncrash, dpc, ndrop, hist>>
+  /\ fpc' = "switched" /\ nflush' = nflush + 1 /\ fkind' = kind
+  /\ hist' = IF dpc = "none" /\ Unacked = {} THEN Append(hist, FlushEntry(kind)) ELSE hist
+  /\ pendF' = IF dpc = "none" /\ Unacked # {} THEN kind ELSE "none"
+  /\ UNCHANGED <<nfile, files, inits, mode, rpc, keyOf, nw, wst, acked, ncrash, dpc, ndrop, serOf, idxMem, idxDisk, wat>>
 
+\* the index's in-memory items reach the disk (one merge-set transaction: atomic)
+IndexToDisk(S) == /\ idxDisk' = idxDisk \cup S /\ idxMem' = idxMem \ S
+
+\* writeSnapshot: s.indexBuilder.Flush() -> Table.DebugFlush(): every pending item, also those of series created
+\* by writes that arrived after the switch
 FlushIndex ==
   /\ mode = "run" /\ fpc = "switched" /\ fpc' = "indexed"
-  /\ UNCHANGED <<wal, nfile, writeReq, mem, snap, pend, files, inits, mode, rpc, keyOf, nw, wst, acked, nflush, ncrash, dpc, ndrop, hist>>
+  /\ IF \/ ("auto_flush_skips_index" \in Dev /\ fkind = "auto")     \* mutation seed: only forced flushes flush the index
+        \/ "index_flush_after_wal_remove" \in Dev                   \* mutation seed: see FlushEnd
+       THEN UNCHANGED <<idxMem, idxDisk>>
+       ELSE IndexToDisk(idxMem)
+  /\ UNCHANGED <<wal, nfile, writeReq, mem, snap, pend, files, inits, mode, rpc, keyOf, nw, wst, acked, nflush, ncrash, dpc, ndrop, hist,
+                 fkind, serOf, wat, pendF>>
+
+\* mergeset.Table.rawItemsFlusher: every second, the raw-item shards that were not flushed for a second
+IndexBgFlush(S) ==
+  /\ mode \in {"run", "rec"} /\ S # {} /\ S \subseteq idxMem
+  /\ IndexToDisk(S)
+  /\ UNCHANGED <<wal, nfile, writeReq, mem, snap, pend, files, inits, fpc, mode, rpc, keyOf, nw, wst, acked, nflush, ncrash, dpc, ndrop, hist,
+                 fkind, serOf, wat, pendF>>
 
 \* commitSnapshot skips the rows of a measurement that is being dropped (checkMstDeleting)
 Kept(seq) == IF dpc = "none" THEN seq ELSE SelectSeq(seq, LAMBDA w : keyOf[w] \notin DropKeys)
@@ -156,20 +230,20 @@ Kept(seq) == IF dpc = "none" THEN seq ELSE SelectSeq(seq, LAMBDA w : keyOf[w] \n
 FlushInit ==
   /\ mode = "run" /\ fpc \in {"indexed", "committing"} /\ inits < MaxInits
   /\ fpc' = "committing" /\ inits' = inits + 1
-  /\ UNCHANGED <<wal, nfile, writeReq, mem, snap, pend, files, mode, rpc, keyOf, nw, wst, acked, nflush, ncrash, dpc, ndrop, hist>>
+  /\ UNCHANGED <<wal, nfile, writeReq, mem, snap, pend, files, mode, rpc, keyOf, nw, wst, acked, nflush, ncrash, dpc, ndrop, hist, ivars, wat, pendF>>
 
 FlushRename ==
   /\ mode = "run" /\ fpc = "committing" /\ inits > 0
   /\ inits' = inits - 1
   /\ files' = IF files # <<>> /\ files[Len(files)] = Kept(snap) THEN files ELSE Append(files, Kept(snap))
-  /\ UNCHANGED <<wal, nfile, writeReq, mem, snap, pend, fpc, mode, rpc, keyOf, nw, wst, acked, nflush, ncrash, dpc, ndrop, hist>>
+  /\ UNCHANGED <<wal, nfile, writeReq, mem, snap, pend, fpc, mode, rpc, keyOf, nw, wst, acked, nflush, ncrash, dpc, ndrop, hist, ivars, wat, pendF>>
 
 \* all data files of the snapshot are in place
 FlushCommitted ==
   /\ mode = "run" /\ fpc = "committing" /\ inits = 0
   /\ files # <<>> /\ files[Len(files)] = Kept(snap)
   /\ fpc' = "renamed"
-  /\ UNCHANGED <<wal, nfile, writeReq, mem, snap, pend, files, inits, mode, rpc, keyOf, nw, wst, acked, nflush, ncrash, dpc, ndrop, hist>>
+  /\ UNCHANGED <<wal, nfile, writeReq, mem, snap, pend, files, inits, mode, rpc, keyOf, nw, wst, acked, nflush, ncrash, dpc, ndrop, hist, ivars, wat, pendF>>
 
 Without(ws, ids) == [p \in Parts |-> SelectSeq(ws[p], LAMBDA f : f.id \notin ids)]
 
@@ -181,48 +255,57 @@ FlushRemoveWal ==
   /\ IF "wal_remove_one_by_one" \in Dev
        THEN \E f \in pend : /\ wal' = Without(wal, {f}) /\ pend' = pend \ {f}
        ELSE /\ wal' = Without(wal, pend) /\ pend' = {}
-  /\ UNCHANGED <<nfile, writeReq, mem, snap, files, inits, fpc, mode, rpc, keyOf, nw, wst, acked, nflush, ncrash, dpc, ndrop, hist>>
+  /\ UNCHANGED <<nfile, writeReq, mem, snap, files, inits, fpc, mode, rpc, keyOf, nw, wst, acked, nflush, ncrash, dpc, ndrop, hist, ivars, wat, pendF>>
 
 FlushEnd ==
   /\ mode = "run" /\ fpc = "renamed" /\ pend = {}
-  /\ snap' = <<>> /\ fpc' = "idle"
-  /\ hist' = Append(hist, [a |-> "Flush", w |-> 0, k |-> "-"])
-  /\ UNCHANGED <<wal, nfile, writeReq, mem, pend, files, inits, mode, rpc, keyOf, nw, wst, acked, nflush, ncrash, dpc, ndrop>>
+  /\ snap' = <<>> /\ fpc' = "idle" /\ fkind' = "none"
+  /\ IF "index_flush_after_wal_remove" \in Dev THEN IndexToDisk(idxMem) ELSE UNCHANGED <<idxMem, idxDisk>>
+  /\ UNCHANGED <<wal, nfile, writeReq, mem, pend, files, inits, mode, rpc, keyOf, nw, wst, acked, nflush, ncrash, dpc, ndrop, hist, serOf, wat, pendF>>
 
-\* DROP MEASUREMENT (shard.DropMeasurement): mark the measurement as deleting, force a flush (its rows are
-\* skipped, the log files go away with that flush), remove its data files, acknowledge.
+\* DROP MEASUREMENT. Design (Dev = {}): mark the measurement as deleting, remove its data files, then force a flush
+\* that skips its rows (the log files go away with that flush), acknowledge: at every instant the measurement's cells
+\* are intact, or hold their last values (log), or are gone. As implemented (shard.DropMeasurement, deviation
+\* "drop_files_after_log", open finding F-C01-3): the flush - which discards the measurement's unflushed rows and
+\* their log records - comes first, the data files go afterwards; a crash in between leaves the last FLUSHED values.
+\* The series index is not touched either way.
 DropBegin ==
   /\ mode = "run" /\ fpc = "idle" /\ dpc = "none" /\ Unacked = {} /\ ndrop < MaxDrop /\ DropKeys # {}
   /\ dpc' = "marked" /\ ndrop' = ndrop + 1
-  /\ UNCHANGED <<wal, nfile, writeReq, mem, snap, pend, files, inits, fpc, mode, rpc, keyOf, nw, wst, acked, nflush, ncrash, hist>>
+  /\ UNCHANGED <<wal, nfile, writeReq, mem, snap, pend, files, inits, fpc, mode, rpc, keyOf, nw, wst, acked, nflush, ncrash, hist, ivars, wat, pendF>>
 
 DropFiles ==
-  /\ mode = "run" /\ dpc = "marked" /\ fpc = "idle" /\ mem = <<>>
+  /\ mode = "run" /\ dpc = "marked" /\ fpc = "idle"
+  /\ (DropAsImpl => mem = <<>>)                         \* as implemented: only after the flush
   /\ files' = [i \in 1..Len(files) |-> SelectSeq(files[i], LAMBDA w : keyOf[w] \notin DropKeys)]
   /\ dpc' = "removed"
-  /\ UNCHANGED <<wal, nfile, writeReq, mem, snap, pend, inits, fpc, mode, rpc, keyOf, nw, wst, acked, nflush, ncrash, ndrop, hist>>
+  /\ UNCHANGED <<wal, nfile, writeReq, mem, snap, pend, inits, fpc, mode, rpc, keyOf, nw, wst, acked, nflush, ncrash, ndrop, hist, ivars, wat, pendF>>
 
 DropEnd ==
-  /\ mode = "run" /\ dpc = "removed"
+  /\ mode = "run" /\ dpc = "removed" /\ fpc = "idle" /\ mem = <<>>
   /\ wst' = [w \in W |-> IF keyOf[w] \in DropKeys /\ wst[w] \in {"acked", "maybe"} THEN "dropped" ELSE wst[w]]
   /\ dpc' = "none"
-  /\ hist' = Append(hist, [a |-> "Drop", w |-> 0, k |-> "-"])
-  /\ UNCHANGED <<wal, nfile, writeReq, mem, snap, pend, files, inits, fpc, mode, rpc, keyOf, nw, acked, nflush, ncrash, ndrop>>
+  /\ hist' = Append(hist, [a |-> "Drop", w |-> 0, k |-> "-", s |-> "-", kind |-> "-", at |-> "-"])
+  /\ UNCHANGED <<wal, nfile, writeReq, mem, snap, pend, files, inits, fpc, mode, rpc, keyOf, nw, acked, nflush, ncrash, ndrop, ivars, wat, pendF>>
 
-\* kill -9: memory and descriptors vanish; the directory tree stays as it is
+\* kill -9: memory and descriptors vanish - memtables and the index's in-memory items alike; the directory tree
+\* stays as it is
 Crash ==
   /\ mode \in {"run", "rec"} /\ ncrash < MaxCrash
   /\ mode' = "down" /\ ncrash' = ncrash + 1
   /\ mem' = <<>> /\ snap' = <<>> /\ pend' = {} /\ fpc' = "idle" /\ rpc' = "none"
+  /\ idxMem' = {} /\ fkind' = "none"
   /\ wal' = CloseAll(wal)
   /\ inits' = 0                                         \* *.init files are ignored (and cleaned) by Open
   \* a write caught before its log append is lost; one caught between log append and
   \* acknowledgement may or may not come back ("maybe": the client never saw the 204)
   /\ wst' = [w \in W |-> CASE wst[w] = "mem" -> "lost" [] wst[w] = "logged" -> "maybe"
-                          [] wst[w] = "acked" /\ dpc # "none" /\ keyOf[w] \in DropKeys -> "maybe"   \* drop in flight: either outcome
+                          \* drop in flight: its cells keep their last acknowledged values or are gone - never an older value
+                          [] wst[w] = "acked" /\ dpc # "none" /\ keyOf[w] \in DropKeys ->
+                               IF w = LastAcked(keyOf[w]) THEN "maybe" ELSE "dropped"
                           [] OTHER -> wst[w]]
-  /\ dpc' = "none"
-  /\ UNCHANGED <<nfile, writeReq, files, keyOf, nw, acked, nflush, ndrop, hist>>
+  /\ dpc' = "none" /\ pendF' = "none"
+  /\ UNCHANGED <<nfile, writeReq, files, keyOf, nw, acked, nflush, ndrop, hist, serOf, idxDisk, wat>>
 
 Recs(p) == LET RECURSIVE Cat(_)
                Cat(fs) == IF fs = <<>> THEN <<>> ELSE Head(fs).recs \o Cat(Tail(fs))
@@ -244,52 +327,65 @@ GlobalOrder == SetToSortSeq(AllRecs, <)
 RecOpen ==
   /\ mode = "down" /\ mode' = "rec" /\ rpc' = "opened"
   /\ writeReq' = 0
-  /\ UNCHANGED <<wal, nfile, mem, snap, pend, files, inits, fpc, keyOf, nw, wst, acked, nflush, ncrash, dpc, ndrop, hist>>
+  /\ UNCHANGED <<wal, nfile, mem, snap, pend, files, inits, fpc, keyOf, nw, wst, acked, nflush, ncrash, dpc, ndrop, hist, ivars, wat, pendF>>
 
+\* every replayed record goes through writeRowsToTable, i.e. through WriteIndex: the series key is part of the
+\* record, so a series whose index entry died with the process gets a new one (in memory)
 RecReplay ==
   /\ mode = "rec" /\ rpc = "opened"
   /\ mem' = IF "rr_from_0" \in Dev THEN RoundRobin([p \in Parts |-> Recs(p)]) ELSE GlobalOrder
+  /\ idxMem' = idxMem \cup ({serOf[keyOf[w]] : w \in AllRecs} \ idxDisk)
   /\ pend' = AllFiles
   /\ rpc' = "replayed"
-  /\ UNCHANGED <<wal, nfile, writeReq, snap, files, inits, fpc, mode, keyOf, nw, wst, acked, nflush, ncrash, dpc, ndrop, hist>>
+  /\ UNCHANGED <<wal, nfile, writeReq, snap, files, inits, fpc, mode, keyOf, nw, wst, acked, nflush, ncrash, dpc, ndrop, hist,
+                 fkind, serOf, idxDisk, wat, pendF>>
+
+\* the flush that ends the replay is a forced one: index first
+RecIndex ==
+  /\ mode = "rec" /\ rpc = "replayed" /\ rpc' = "indexed"
+  /\ IndexToDisk(idxMem)
+  /\ UNCHANGED <<wal, nfile, writeReq, mem, snap, pend, files, inits, fpc, mode, keyOf, nw, wst, acked, nflush, ncrash, dpc, ndrop, hist,
+                 fkind, serOf, wat, pendF>>
 
 RecInit ==
-  /\ mode = "rec" /\ rpc = "replayed" /\ rpc' = "inited"
+  /\ mode = "rec" /\ rpc = "indexed" /\ rpc' = "inited"
   /\ inits' = IF mem = <<>> THEN inits ELSE inits + 1
-  /\ UNCHANGED <<wal, nfile, writeReq, mem, snap, pend, files, fpc, mode, keyOf, nw, wst, acked, nflush, ncrash, dpc, ndrop, hist>>
+  /\ UNCHANGED <<wal, nfile, writeReq, mem, snap, pend, files, fpc, mode, keyOf, nw, wst, acked, nflush, ncrash, dpc, ndrop, hist, ivars, wat, pendF>>
 
 RecRename ==
   /\ mode = "rec" /\ rpc = "inited" /\ rpc' = "renamed"
   /\ files' = IF mem = <<>> THEN files ELSE Append(files, mem)
   /\ inits' = 0 /\ mem' = <<>>
-  /\ UNCHANGED <<wal, nfile, writeReq, snap, pend, fpc, mode, keyOf, nw, wst, acked, nflush, ncrash, dpc, ndrop, hist>>
+  /\ UNCHANGED <<wal, nfile, writeReq, snap, pend, fpc, mode, keyOf, nw, wst, acked, nflush, ncrash, dpc, ndrop, hist, ivars, wat, pendF>>
 
 RecRemoveWal ==
   /\ mode = "rec" /\ rpc = "renamed" /\ pend # {}
   /\ IF "wal_remove_one_by_one" \in Dev
        THEN \E f \in pend : /\ wal' = Without(wal, {f}) /\ pend' = pend \ {f}
        ELSE /\ wal' = Without(wal, pend) /\ pend' = {}
-  /\ UNCHANGED <<nfile, writeReq, mem, snap, files, inits, fpc, mode, rpc, keyOf, nw, wst, acked, nflush, ncrash, dpc, ndrop, hist>>
+  /\ UNCHANGED <<nfile, writeReq, mem, snap, files, inits, fpc, mode, rpc, keyOf, nw, wst, acked, nflush, ncrash, dpc, ndrop, hist, ivars, wat, pendF>>
 
 RecEnd ==
   /\ mode = "rec" /\ rpc = "renamed" /\ pend = {}
   /\ mode' = "run" /\ rpc' = "none"
-  /\ hist' = Append(hist, [a |-> "Restart", w |-> 0, k |-> "-"])
-  /\ UNCHANGED <<wal, nfile, writeReq, mem, snap, pend, files, inits, fpc, keyOf, nw, wst, acked, nflush, ncrash, dpc, ndrop>>
+  /\ hist' = Append(hist, [a |-> "Restart", w |-> 0, k |-> "-", s |-> "-", kind |-> "-", at |-> "-"])
+  /\ UNCHANGED <<wal, nfile, writeReq, mem, snap, pend, files, inits, fpc, keyOf, nw, wst, acked, nflush, ncrash, dpc, ndrop, ivars, wat, pendF>>
 
 Next ==
   \/ \E k \in Keys : WriteMem(k)
   \/ \E w \in W : WriteWal(w) \/ Ack(w)
-  \/ FlushSwitch \/ FlushIndex \/ FlushInit \/ FlushRename \/ FlushCommitted \/ FlushRemoveWal \/ FlushEnd
+  \/ FlushSwitch("forced") \/ FlushSwitch("auto")
+  \/ FlushIndex \/ FlushInit \/ FlushRename \/ FlushCommitted \/ FlushRemoveWal \/ FlushEnd
+  \/ \E S \in SUBSET idxMem : IndexBgFlush(S)
   \/ DropBegin \/ DropFiles \/ DropEnd
-  \/ Crash \/ RecOpen \/ RecReplay \/ RecInit \/ RecRename \/ RecRemoveWal \/ RecEnd
+  \/ Crash \/ RecOpen \/ RecReplay \/ RecIndex \/ RecInit \/ RecRename \/ RecRemoveWal \/ RecEnd
 
 Spec == Init /\ [][Next]_vars
 
 -----------------------------------------------------------------------------
-\* C01. While the shard serves (mode = "run"): every cell shows the latest acknowledged value, or a
-\* later value of a write that was logged but whose acknowledgement the crash swallowed; never an
-\* older value, never a value nobody wrote.
+\* C01. While the shard serves (mode = "run"): every cell shows - through the series index - the latest
+\* acknowledged value, or a later value of a write that was logged but whose acknowledgement the crash
+\* swallowed; never an older value, never a value nobody wrote.
 Durable ==
   mode = "run" =>
     \A k \in Keys : (dpc # "none" /\ k \in DropKeys) \/
@@ -302,11 +398,30 @@ Durable ==
 InFiles(w) == \E i \in 1..Len(files) : \E j \in 1..Len(files[i]) : files[i][j] = w
 WalBeforeAck == \A w \in W : (wst[w] = "acked" /\ ~(dpc # "none" /\ keyOf[w] \in DropKeys)) => (w \in AllRecs \/ InFiles(w))
 
+\* ... and reachable from disk: its series key is in a log record (replay re-creates the index entry) or in an
+\* index part on disk
+IndexOrLog == \A w \in W : (wst[w] = "acked" /\ ~(dpc # "none" /\ keyOf[w] \in DropKeys)) => (w \in AllRecs \/ serOf[keyOf[w]] \in idxDisk)
+
+\* a committed data file holds only rows of series whose key is in an index part on disk. (The specification gives a
+\* series one identity; the code gives a series that replay had to re-create a new id, so rows committed under an id
+\* whose index entry was lost would stay unreachable even after the key is back. This invariant is what makes the
+\* abstraction sound: FlushIndex precedes the first FlushRename, RecIndex precedes RecRename.)
+FilesIndexed == \A i \in 1..Len(files) : \A j \in 1..Len(files[i]) : serOf[keyOf[files[i][j]]] \in idxDisk
+
 \* action property: log files of a flush disappear only after its data file was renamed into place
 RemoveAfterRename ==
   [][ (mode = "run" /\ wal' # wal /\ Cardinality(AllFiles') < Cardinality(AllFiles)) => fpc = "renamed" ]_vars
 
+\* action property: no log file is removed while a row it protects belongs to a series that is only in the
+\* in-memory index (the record is the only durable copy of the series key)
+RecsOfFiles(ids) == UNION {UNION {{wal[p][i].recs[j] : j \in 1..Len(wal[p][i].recs)} : i \in {x \in 1..Len(wal[p]) : wal[p][x].id \in ids}} : p \in Parts}
+IndexBeforeWalRemove ==
+  [][ \A w \in RecsOfFiles(AllFiles \ AllFiles') : serOf[keyOf[w]] \in idxDisk ]_vars
+
 TypeOK == /\ mode \in {"run", "down", "rec"} /\ dpc \in {"none", "marked", "removed"}
           /\ fpc \in {"idle", "switched", "indexed", "committing", "renamed"}
+          /\ fkind \in {"none", "forced", "auto"} /\ (fkind = "none" <=> fpc = "idle")
+          /\ rpc \in {"none", "opened", "replayed", "indexed", "inited", "renamed"}
+          /\ idxMem \cap idxDisk = {} /\ idxMem \cup idxDisk \subseteq {serOf[k] : k \in Keys}
           /\ writeReq \in Nat /\ inits \in Nat
 =============================================================================
